@@ -78,6 +78,14 @@ func theWorld() *dyn.World {
 			dyn.MethodSpec{Name: "RbLeaf", In: ".un.All", Out: ".un.All", Rule: rb("/c4/rb-leaf", "nest.leaf")},
 			dyn.MethodSpec{Name: "RbBody", In: ".un.All", Out: ".un.All", Rule: rb("/c4/rb-body", "http_body")},
 			dyn.MethodSpec{Name: "Raw", In: ".un.All", Out: ".google.api.HttpBody", Rule: get("/c4/raw")},
+			// replies and selections that are well-known types: their JSON form is not an object
+			dyn.MethodSpec{Name: "RbTs", In: ".un.All", Out: ".un.All", Rule: rb("/c4/rb-ts", "ts")},
+			dyn.MethodSpec{Name: "RbDur", In: ".un.All", Out: ".un.All", Rule: rb("/c4/rb-dur", "dur")},
+			dyn.MethodSpec{Name: "RbMask", In: ".un.All", Out: ".un.All", Rule: rb("/c4/rb-mask", "mask")},
+			dyn.MethodSpec{Name: "RbWint", In: ".un.All", Out: ".un.All", Rule: rb("/c4/rb-wint", "w_int32")},
+			dyn.MethodSpec{Name: "RbWstr", In: ".un.All", Out: ".un.All", Rule: rb("/c4/rb-wstr", "w_string")},
+			dyn.MethodSpec{Name: "WktTs", In: ".un.All", Out: ".google.protobuf.Timestamp", Rule: get("/c4/wkt-ts")},
+			dyn.MethodSpec{Name: "WktDur", In: ".un.All", Out: ".google.protobuf.Duration", Rule: get("/c4/wkt-dur")},
 		), dyn.Svc("C4Later",
 			// registered AFTER C4 in some cases: a later registration must not disturb the earlier bindings
 			dyn.MethodSpec{Name: "Other", In: ".un.All", Out: ".un.All", Rule: get("/c4later/other")},
@@ -155,6 +163,16 @@ func Check(c Case) ([]evid.Violation, info) {
 				return asset, nil
 			}
 			return &httpbody.HttpBody{ContentType: c.RawType, Data: c.RawData}, nil
+		}
+		if strings.HasSuffix(fm, "/WktTs") || strings.HasSuffix(fm, "/WktDur") {
+			// the reply IS the well-known type (the reply message's ts / dur field, possibly unset = zero)
+			name := map[bool]string{true: "ts", false: "dur"}[strings.HasSuffix(fm, "/WktTs")]
+			fd := reply.Descriptor().Fields().ByName(protoreflect.Name(name))
+			out := dynamicpb.NewMessage(fd.Message())
+			if reply.Has(fd) {
+				proto.Merge(out, reply.Get(fd).Message().Interface())
+			}
+			return out, nil
 		}
 		if c.Cached > 0 {
 			return cached, nil
@@ -336,6 +354,16 @@ func Check(c Case) ([]evid.Violation, info) {
 		want = sub(reply, "nest").Interface()
 	case "rb-leaf":
 		want = sub(sub(reply, "nest"), "leaf").Interface()
+	case "rb-ts", "wkt-ts":
+		want = sub(reply, "ts").Interface()
+	case "rb-dur", "wkt-dur":
+		want = sub(reply, "dur").Interface()
+	case "rb-mask":
+		want = sub(reply, "mask").Interface()
+	case "rb-wint":
+		want = sub(reply, "w_int32").Interface()
+	case "rb-wstr":
+		want = sub(reply, "w_string").Interface()
 	}
 	got := dynamicpb.NewMessage(want.ProtoReflect().Descriptor())
 	var derr error
@@ -383,7 +411,7 @@ func genAcceptLine(t *rapid.T) string {
 
 func genCase(t *rapid.T) Case {
 	c := Case{
-		Route:       rapid.SampledFrom([]string{"plain", "plain", "plain", "rb-nest", "rb-leaf", "rb-body", "raw"}).Draw(t, "route"),
+		Route:       rapid.SampledFrom([]string{"plain", "plain", "plain", "plain", "rb-nest", "rb-leaf", "rb-body", "raw", "rb-nest", "rb-body", "raw", "rb-ts", "rb-dur", "rb-mask", "rb-wint", "rb-wstr", "wkt-ts", "wkt-dur"}).Draw(t, "route"),
 		Verb:        rapid.SampledFrom([]string{"GET", "POST"}).Draw(t, "verb"),
 		ContentType: rapid.SampledFrom([]string{"", "", "application/json", "application/protobuf", "application/octet-stream"}).Draw(t, "ct"),
 	}
